@@ -3,7 +3,8 @@
    the already tied __str__ (AddrText.addr_str, NetText.net_str), IPAddress.__oct__ (Python 2 only; no model: stated directly). *)
 From Coq Require Import String Ascii.
 From NV Require Import Base.Tac Base.PyVal Base.PyStr Model.Ip Model.AddrText Model.NetText Model.SrcPrelude Model.SrcPreludeCtor Model.SrcPreludeG
-  Gen.pysrc_gen Gen.pysrc_ctor_gen Gen.pysrc_parse_gen Gen.pysrc_ipg_gen Proofs.GenOk_Src_C03.
+  Model.SrcPreludeText Gen.pysrc_gen Gen.pysrc_ctor_gen Gen.pysrc_parse_gen Gen.pysrc_ipv4_gen Gen.pysrc_ipv6_gen Gen.pysrc_ipg_gen
+  Proofs.GenOk_Src_C03 Proofs.GenOk_Src_C01_text.
 Import ListNotations.
 Open Scope Z_scope.
 
@@ -18,3 +19,21 @@ Lemma C01_tie_g_ok :
 Proof.
   repeat split; intros; reflexivity.
 Qed.
+
+(* IPAddress.format: the dialect argument of the model (None or one of the dialect records) as the generated code sees it *)
+Definition d6_of (d : option dialect) : darg6 := match d with None => D6None | Some d => D6Class (dcls d) end.
+
+Lemma src_format_ok be ver w v d : ver = 4 \/ ver = 6 -> src_IPAddress_format be ver w v (d6_of d) = int_to_str be ver v d.
+Proof.
+  destruct C01_tie_text1_ok as (_ & _ & H4 & _ & _ & _ & _ & H6 & _).
+  intros [-> | ->]; destruct d as [d|]; cbn [d6_of src_IPAddress_format].
+  - change (4 =? src_ipv4_version) with true. cbv iota. apply H4.
+  - change (4 =? src_ipv4_version) with true. cbv iota. apply H4.
+  - change (6 =? src_ipv4_version) with false. change (6 =? src_ipv6_version) with true. cbv iota. apply (H6 be v (Some d)).
+  - change (6 =? src_ipv4_version) with false. change (6 =? src_ipv6_version) with true. cbv iota. apply (H6 be v None).
+Qed.
+
+Lemma C01_tie_g_format_ok :
+  (forall be ver w v d, ver = 4 \/ ver = 6 -> src_IPAddress_format be ver w v (d6_of d) = int_to_str be ver v d) /\
+  (forall be ver w v, src_IPAddress_format be ver w v D6Other = Raise TypeError).
+Proof. split; [exact src_format_ok|reflexivity]. Qed.
